@@ -108,6 +108,55 @@ func ampList(bits int, seed uint64, nRandom int) []int64 {
 	return out
 }
 
+// breakpoints lists k*2^d + delta for every destination amplitude k and
+// delta in -3..3, d = srcBits-dstBits, clipped to the source range, ascending.
+func breakpoints(srcBits, dstBits int) []int64 {
+	d := uint(srcBits - dstBits)
+	lo, hi := minAmp(srcBits), maxAmp(srcBits)
+	var out []int64
+	for k := minAmp(dstBits); k <= maxAmp(dstBits)+1; k++ {
+		base := k << d // k = 2^(dstBits-1) gives 2^(srcBits-1): overflows to lo for 64 bits; handled by the range test
+		for delta := int64(-3); delta <= 3; delta++ {
+			v := base + delta
+			if k == maxAmp(dstBits)+1 && delta >= 0 {
+				continue
+			}
+			if (delta < 0 && v > base) || (delta > 0 && v < base) { // wrapped
+				continue
+			}
+			if k == maxAmp(dstBits)+1 && srcBits == 64 {
+				v = hi + delta + 1 // 2^63 is not representable: count down from the top instead
+			}
+			if v >= lo && v <= hi {
+				out = append(out, v)
+			}
+		}
+	}
+	sort.Slice(out, func(i, j int) bool { return out[i] < out[j] })
+	return out
+}
+
+// mergeSorted merges two ascending lists and removes duplicates.
+func mergeSorted(a, b []int64) []int64 {
+	out := make([]int64, 0, len(a)+len(b))
+	i, j := 0, 0
+	for i < len(a) || j < len(b) {
+		var v int64
+		switch {
+		case j >= len(b) || (i < len(a) && a[i] <= b[j]):
+			v = a[i]
+			i++
+		default:
+			v = b[j]
+			j++
+		}
+		if len(out) == 0 || out[len(out)-1] != v {
+			out = append(out, v)
+		}
+	}
+	return out
+}
+
 // scanTask is one unit of enumeration work for one instantiation.
 type scanTask struct {
 	cv        *dyn.ConvOp
@@ -115,6 +164,7 @@ type scanTask struct {
 	lo, hi    uint64 // index range in ascending-amplitude order
 	list      bool   // use the boundary/random list instead
 	whole     bool   // the task covers the whole source domain
+	rep       int    // >1: every code is repeated rep times (long buffers of few distinct values)
 	weightLog int
 }
 
@@ -130,6 +180,11 @@ func fixedTasks(keep func(*dyn.ConvOp) bool, full32 bool, segs32 int) []scanTask
 		switch {
 		case b <= 16:
 			ts = append(ts, scanTask{cv: cv, full: true, lo: 0, hi: uint64(1) << b, whole: true, weightLog: b})
+			if b == 8 {
+				// the same 256 codes again in buffers much longer than the
+				// number of codes (paths that depend on the buffer length)
+				ts = append(ts, scanTask{cv: cv, full: true, lo: 0, hi: 256, whole: true, rep: 100, weightLog: 15})
+			}
 		case b == 32 && full32:
 			per := (uint64(1) << 32) / uint64(segs32)
 			for s := 0; s < segs32; s++ {
@@ -153,7 +208,14 @@ func (t scanTask) forEachChunk(c *core.Ctx, f func(in []uint64)) {
 	buf := make([]uint64, 0, chunkN)
 	if t.list {
 		nr := c.Pick(20000, 400000)
-		for _, a := range ampList(st.Bits, c.Seed, nr) {
+		list := ampList(st.Bits, c.Seed, nr)
+		if db := t.cv.D.Bits; t.cv.D.Kind != dyn.KFloat && db <= 16 && st.Bits > db {
+			// narrowing into a small destination: every point where the result
+			// must change (k*2^d) with its neighbours -- all preimage boundaries
+			list = mergeSorted(list, breakpoints(st.Bits, db))
+			c.Obs("breakpoint_lists_for_narrow_destinations", 1)
+		}
+		for _, a := range list {
 			buf = append(buf, rawOfAmp(st, a))
 			if len(buf) == chunkN {
 				f(buf)
@@ -169,11 +231,16 @@ func (t scanTask) forEachChunk(c *core.Ctx, f func(in []uint64)) {
 	if i > 0 {
 		i-- // overlap by one code for order stitching
 	}
+	rep := max(t.rep, 1)
+	k := 0
 	for i < t.hi {
 		buf = buf[:0]
 		for len(buf) < chunkN && i < t.hi {
 			buf = append(buf, codeAt(st, i))
-			i++
+			if k++; k == rep {
+				k = 0
+				i++
+			}
 		}
 		f(buf)
 	}
